@@ -382,11 +382,13 @@ def oracle(case, obs):
         obs = obs.split("|")[0]
         if obs == "same":
             return None
-        if tuple_on_cycle(case["graph"]):
-            # known limitation class: a cycle that passes through an (immutable) tuple
+        if tuple_on_cycle(case["graph"]) and (obs.startswith("placeholder:") or obs == "raised:AssertionError"):
+            # the known limitation, and nothing else: a finished-looking crefutil placeholder is left where the
+            # tuple should be (all its items are right), or unjelly trips over its own stale placeholder
             kind = "raised" if obs.startswith("raised:") else "placeholder"
             return Failure(case, "cyclic graph through a tuple not preserved: " + obs, "roundtrip-tuple-on-cycle:" + kind)
-        return Failure(case, "jelly/unjelly changed the object graph: " + obs, "roundtrip:" + obs.split(":")[0])
+        return Failure(case, "jelly/unjelly changed the object graph: " + obs,
+                       "roundtrip:" + obs.split(":")[0] + ("-tuple-on-cycle" if tuple_on_cycle(case["graph"]) else ""))
     pol = case["policy"]
     res, imps, insts = obs.split("|")
     unnum = lambda s: ".".join(SEG[int(x)] for x in s.split(".")) if s and s[0].isdigit() else s
@@ -461,6 +463,12 @@ def build_graph(spec):
     for i, d in enumerate(spec):
         if d[0] == "tuple":
             nodes[i] = tuple(nodes[j] for j in d[1:])
+    # sets / frozensets: members are atoms, instances, tuples (hashable); a set may contain its own owner
+    for i, d in enumerate(spec):
+        if d[0] == "fset":
+            nodes[i] = frozenset(nodes[j] for j in d[1:])
+        elif d[0] == "set":
+            nodes[i] = set(nodes[j] for j in d[1:])
     for i, d in enumerate(spec):
         if d[0] == "list":
             nodes[i].extend(nodes[j] for j in d[1:])
@@ -474,14 +482,35 @@ def build_graph(spec):
 
 
 def same_graph(a, b):
-    """isomorphism incl. sharing and cycles for list/dict/tuple/instances; atoms by value"""
+    """isomorphism incl. sharing and cycles for list/dict/tuple/set/instances; atoms by value.
+    Verdicts: same | placeholder:<path> (the ONLY difference is a crefutil._Tuple/_Container object sitting where the
+    finished tuple/set should be, with the right items inside) | <kind>:<path> for any other difference."""
+    from twisted.persisted import crefutil
     fwd, bwd = {}, {}
     stack = [(a, b, "root")]
+    placeholder = None
+
+    def atom(v):
+        return isinstance(v, (int, str, bytes, float)) or v is None
     while stack:
         x, y, path = stack.pop()
-        if isinstance(x, (int, str, bytes, float)) or x is None:
+        if atom(x):
             if type(x) is not type(y) or x != y:
-                return "atom:" + path
+                return "atom:" + path + f" {x!r} became {y!r}"[:80]
+            continue
+        if isinstance(y, crefutil._Container) and isinstance(x, (tuple, set, frozenset)):
+            # a placeholder left in the result: remember it, and keep comparing what it holds
+            if placeholder is None:
+                placeholder = path
+            if isinstance(x, tuple):
+                if len(x) != len(y.l):
+                    return "length:" + path
+                stack += [(p, q, f"{path}<{i}>") for i, (p, q) in enumerate(zip(x, y.l))]
+            else:
+                r = _same_members(x, y.l, path)
+                if isinstance(r, str):
+                    return r
+                stack += r
             continue
         if type(x).__qualname__ != type(y).__qualname__:
             return "type:" + path + f" {type(x).__name__} vs {type(y).__name__}"
@@ -489,13 +518,18 @@ def same_graph(a, b):
             if fwd.get(id(x)) != id(y) or bwd.get(id(y)) != id(x):
                 return "sharing:" + path
             continue
-        if not isinstance(x, tuple):
+        if not isinstance(x, (tuple, frozenset)):
             fwd[id(x)] = id(y)
             bwd[id(y)] = id(x)
         if isinstance(x, (list, tuple)):
             if len(x) != len(y):
                 return "length:" + path
             stack += [(p, q, f"{path}[{i}]") for i, (p, q) in enumerate(zip(x, y))]
+        elif isinstance(x, (set, frozenset)):
+            r = _same_members(x, y, path)
+            if isinstance(r, str):
+                return r
+            stack += r
         elif isinstance(x, dict):
             if list(x.keys()) != list(y.keys()) and set(x) != set(y):
                 return "keys:" + path
@@ -504,11 +538,24 @@ def same_graph(a, b):
             if set(x.__dict__) != set(y.__dict__):
                 return "attrs:" + path
             stack += [(x.__dict__[k], y.__dict__[k], f"{path}.{k}") for k in x.__dict__]
-    return "same"
+    return "same" if placeholder is None else "placeholder:" + placeholder
+
+
+def _same_members(x, ys, path):
+    """members of a set: atoms must coincide; the other members are paired by type name (generated sets hold at most
+    one member of each non-atom type)"""
+    isatom = lambda v: isinstance(v, (int, str, bytes, float)) or v is None
+    ys = list(ys)
+    xa, ya = sorted(repr(v) for v in x if isatom(v)), sorted(repr(v) for v in ys if isatom(v))
+    if xa != ya or len(x) != len(ys):
+        return "members:" + path + f" {xa} became {ya} ({len(x)} vs {len(ys)} members)"[:100]
+    xo = sorted((v for v in x if not isatom(v)), key=lambda v: type(v).__name__)
+    yo = sorted((v for v in ys if not isatom(v)), key=lambda v: type(v).__name__)
+    return [(p, q, f"{path}{{{type(p).__name__}}}") for p, q in zip(xo, yo)]
 
 
 def _edges(d):
-    if d[0] in ("list", "tuple"):
+    if d[0] in ("list", "tuple", "set", "fset"):
         return [x for x in d[1:] if isinstance(x, int)]
     if d[0] == "dict":
         return [d[k + 1] for k in range(1, len(d) - 1, 2)]
@@ -520,7 +567,7 @@ def _edges(d):
 def tuple_on_cycle(spec) -> bool:
     adj = {i: _edges(d) for i, d in enumerate(spec)}
     for i, d in enumerate(spec):
-        if d[0] != "tuple":
+        if d[0] not in ("tuple", "set", "fset"):
             continue
         seen, st = set(), list(adj[i])
         while st:
@@ -609,6 +656,9 @@ def dump_real(root, tab):
             out[n] = "T[" + ",".join("0:" + ref(x) for x in o) + "]"
         elif isinstance(o, dict):
             out[n] = "D[" + ",".join("%d:%s" % (_acode(tab, k), ref(v)) for k, v in o.items()) + "]"
+        elif isinstance(o, (set, frozenset)):
+            out[n] = "S[" + ",".join(sorted("0:" + ref(x) for x in sorted(o, key=lambda v: (type(v).__name__, repr(v)
+                                                                                      if isinstance(v, (int, str)) else "")))) + "]"
         elif isinstance(o, crefutil._Container):
             out[n] = "P[" + ",".join("0:" + ref(x) for x in o.l) + "]"
         elif isinstance(o, crefutil._Dereference):
@@ -817,6 +867,39 @@ def rand_policy(rng):
     return {"types": types, "modules": mods, "classes": classes}
 
 
+def rand_container_cycle(rng):
+    """a tuple (or set / frozenset) that holds a back reference into a cycle at position p, FOLLOWED and preceded by
+    further elements: atoms, an inner tuple, and objects that are first defined inside it and used again later"""
+    kind = rng.choice(["tuple", "tuple", "tuple", "set", "fset"])
+    spec = [None, None]                       # 0 = root list, 1 = owner
+    def add(d):
+        spec.append(d)
+        return len(spec) - 1
+    inner = add(["tuple", add(["int", 41]), add(["str", "in"])])
+    shared = add(["list", add(["int", 5])]) if kind == "tuple" else add(["inst", "ljplain.P2", "v", add(["int", 5])])
+    atoms = [add(["int", rng.randrange(100, 999)]), add(["str", "tail"]), add(["none"]), add(["int", 7])]
+    if kind != "tuple":
+        atoms = [a for a in atoms if spec[a][0] != "none" or rng.random() < 0.3]
+    members = rng.sample(atoms, rng.randrange(1, len(atoms) + 1))
+    if rng.random() < 0.5:
+        members.append(inner)
+    use_shared = rng.random() < 0.6 and (kind == "tuple" or True)
+    if use_shared:
+        members.insert(rng.randrange(len(members) + 1), shared)
+    ownerkind = "inst" if kind != "tuple" else rng.choice(["list", "dict", "inst"])
+    p = rng.randrange(len(members) + 1)       # position of the back reference
+    members.insert(p, 1)
+    cont = add([kind] + members)
+    if ownerkind == "list":
+        spec[1] = ["list"] + ([atoms[0]] if rng.random() < 0.5 else []) + [cont] + ([shared] if rng.random() < 0.3 else [])
+    elif ownerkind == "dict":
+        spec[1] = ["dict", "edges", cont] + (["later", shared] if rng.random() < 0.3 else [])
+    else:
+        spec[1] = ["inst", "ljplain.P1", "edges", cont] + (["later", shared] if rng.random() < 0.3 else [])
+    spec[0] = ["list", 1] + ([shared] if use_shared and rng.random() < 0.7 else []) + ([cont] if rng.random() < 0.3 else [])
+    return {"kind": "roundtrip", "graph": spec}
+
+
 def rand_method_case(rng):
     """[method, name, self, [class, C]] under a policy that allows the method tag and (mostly) the class C; the name is
     C's own method, a method inherited from a base in an allowed / a foreign module, a type attribute, or missing"""
@@ -856,6 +939,8 @@ def gen(rng, tier):
         k = rng.random()
         if k < 0.02:
             out.append(rand_records(rng))
+        elif k < 0.05:
+            out.append(rand_container_cycle(rng))
         elif k < 0.12:
             out.append(rand_graph(rng))
         elif k < 0.22:
@@ -982,6 +1067,8 @@ def to_coq(case):
     if case.get("kind") == "records":
         return None          # Jellyable.getStateFor path: oracle only
     if case.get("kind") == "roundtrip":
+        if any(d[0] in ("set", "fset") for d in case["graph"]):
+            return None         # sets are not in the Coq graph model: oracle only
         return "(inr " + graph_coq(case["graph"]) + ")"
     s = sexp_coq(case["sexp"])
     if s is None:
